@@ -35,17 +35,39 @@ func pkgDir(repo, pkgPath string) string {
 }
 
 func replayObligation(ld *Loader, specs *Specs, fr *FuncResult, o *Obligation, repo string) replayResult {
-	if fr == nil || o == nil || o.Model == nil {
-		return replayResult{Mode: "none", Note: "the solver gave no model for this obligation (unknown/timeout or quantified goal)"}
+	if fr == nil || o == nil {
+		return replayResult{Mode: "none", Note: "no obligation"}
 	}
 	fn := ld.funcs[fullKey(fr.Pkg, fr.Key)]
 	if fn == nil {
 		return replayResult{Mode: "none", Note: "function not found"}
 	}
+	if o.Model == nil {
+		// no counterexample from the solver (unknown/timeout on a quantified goal): probe the real function
+		// with inputs built from the contract's own string literals; only a failing probe is reported
+		note := "the solver gave no model for this obligation (unknown/timeout or quantified goal)"
+		if ms := probeModels(fn, fr); len(ms) > 0 {
+			if src, n2 := genericReplay(ld, specs, fn, fr, o, ms, fmt.Sprintf("%d probe inputs built from the contract's literals (the solver gave no model)", len(ms))); src != "" {
+				r := runReplayTest(repo, fr.Pkg, fn, src, n2)
+				if r.Confirmed {
+					return r
+				}
+				r.Note = note + "; probing with the contract's literals found no failing input"
+				return r
+			}
+		}
+		return replayResult{Mode: "none", Note: note}
+	}
 	model := map[string]string{}
 	for k, v := range o.Model {
 		if lbl := fr.ParamSyms[k]; lbl != "" {
 			model[lbl] = v
+		}
+	}
+	// model value of a string literal -> the literal (so that inputs equal to a literal replay as that literal)
+	for k, v := range o.Model {
+		if lit, ok := fr.StrNames[k]; ok {
+			model["strlit:"+v] = lit
 		}
 	}
 	if tmpl, ok := replayTemplates[fr.Key]; ok {
@@ -59,7 +81,7 @@ func replayObligation(ld *Loader, specs *Specs, fr *FuncResult, o *Obligation, r
 	if src != "" {
 		return runReplayTest(repo, fr.Pkg, fn, src, "generic scalar replay")
 	}
-	src, note2 := genericReplay(ld, specs, fn, fr, o, model)
+	src, note2 := genericReplay(ld, specs, fn, fr, o, []map[string]string{model}, "the solver's counterexample")
 	if src == "" {
 		return replayResult{Mode: "none", Note: note + "; " + note2}
 	}
